@@ -645,7 +645,7 @@ def check(tier):
                        "clause (b) (reference matcher) is input generation labelled as such; clause (a) is the simulated seam"]
     budget = core.env_budget(70 if tier == "quick" else 900)
     deadline = time.time() + budget
-    cfg = {"texts_per_lexicon": 6, "long": True}
+    cfg = {"texts_per_lexicon": 6, "long": True, "case_timeout_s": 120}
     n = 12000 if tier == "quick" else 10 ** 9
     batch = 12000
     start, viol = 0, []
@@ -665,7 +665,7 @@ def check(tier):
     files = corpus_files(0)
     if files:
         ncorp = 160 if tier == "quick" else 4000
-        results = core.run_batch(corpus_run, PROP, seed, range(ncorp), {"files": files}, chunk=4, deadline=deadline + 30)
+        results = core.run_batch(corpus_run, PROP, seed, range(ncorp), {"files": files, "case_timeout_s": 300}, chunk=4, deadline=deadline + 30)
         for i, r in results:
             if "harness_error" in r:
                 rep.harness_errors.append(r["harness_error"])
